@@ -125,6 +125,8 @@ def op_text(op):
         return " ".join(["status"] + [hx(t) for t in op[1]])
     if k in ("run", "push", "fetch"):
         return " ".join([k, str(int(op[1]))] + [hx(t) for t in op[2]])
+    if k == "graph":
+        return " ".join(["graph"] + [hx(t) for t in op[1]])
     if k == "write":
         return "write %s %s" % (hx(op[1]), op[2])
     if k in ("rm", "mkdir", "fifo", "uncopy"):
@@ -451,6 +453,7 @@ class Project:
         walk(rootb)
         cache_info = []      # (digest-name, content digest, mode)
         stray = []
+        manifests = {}       # object name -> [(child checksum, is-dir)] for objects that parse as manifests
         if os.path.isdir(self.cache):
             for hh in sorted(os.listdir(self.cache)):
                 p = os.path.join(self.cache, hh)
@@ -460,6 +463,17 @@ class Project:
                         st = os.lstat(q)
                         if stat.S_ISREG(st.st_mode):
                             cache_info.append((hh + rest, b3.file(q), stat.S_IMODE(st.st_mode)))
+                            if st.st_size < (1 << 22):
+                                try:
+                                    with open(q, "rb") as f:
+                                        head = f.read(12)
+                                        if head.startswith(b'{"path":') or head.startswith(b'{"Path":'):
+                                            m = json.loads((head + f.read()).decode("utf-8", "surrogateescape"))
+                                            kids = m.get("contents", m.get("Contents")) or {}
+                                            manifests[hh + rest] = [(c.get("checksum", c.get("Checksum", "")),
+                                                                     bool(c.get("is-dir", c.get("IsDir", False)))) for c in kids.values()]
+                                except Exception:
+                                    pass
                         else:
                             stray.append(q)
                 else:
@@ -475,7 +489,17 @@ class Project:
                     lines.append("r %s" % (hh + rest))
         stage_lines, stage_docs = self.stage_lines()
         lines += stage_lines
-        return dict(lines=lines, cache=cache_info, stray=stray, remote=rem, stages=stage_docs)
+        meta = {}
+        dd = os.path.join(self.root, ".dud")
+        for name in sorted(os.listdir(dd)):
+            q = os.path.join(dd, name)
+            if os.path.isfile(q) and name != "lock":
+                meta[name] = hashlib.sha256(open(q, "rb").read()).hexdigest()
+        rem_modes = {}
+        for d_ in rem:
+            rem_modes[d_] = stat.S_IMODE(os.lstat(os.path.join(self.remote_dir, d_[:2], d_[2:])).st_mode)
+        return dict(lines=lines, cache=cache_info, stray=stray, remote=rem, stages=stage_docs, meta=meta, remote_modes=rem_modes,
+                    manifests=manifests)
 
     def stage_lines(self):
         out = []
@@ -631,6 +655,8 @@ def apply_op(proj, op, mstep, b3):
     elif k == "status":
         rc, se, lines = proj.status_lines(op[1])
         r["lines"] = lines
+    elif k == "graph":
+        rc, so, se = proj.dud(["graph"] + targets(op[1]))
     else:
         rc, se = 0, b""
         if k == "write":
